@@ -153,7 +153,7 @@ fn check_pair(a: &Tagged, b: &Tagged, rank: u64) -> Vec<Violation> {
 
 pub fn run(ctx: &Ctx) {
     // (alphabet size, maximal list length)
-    let configs: Vec<(u8, usize)> = ctx.tier.pick(vec![(5, 5)], vec![(5, 5), (6, 4)]);
+    let configs: Vec<(u8, usize)> = ctx.tier.pick(vec![(5, 5)], vec![(5, 5), (6, 5)]);
     let mut evaluations = 0u64;
     let mut nontrivial = 0u64;
     let mut complete = true;
